@@ -33,6 +33,12 @@ def argv_cases():
         for combo in itertools.product(("absent", "existing", "missing"), repeat=3):
             for names in (True, False, "also_for_absent_files"):
                 cases.append({"cmd": "sync", "truth": truth, "files": list(combo), "names": names})
+    # several files of the truth's kind: the first one is the truth; it must exist, the others are targets
+    for truth in ("class", "function", "argparse_function"):
+        for second in ("first_missing", "second_missing", "both_existing", "both_missing"):
+            for other in ("existing", "missing", "absent"):
+                cases.append({"cmd": "sync", "truth": truth, "files": [("existing" if k == truth else (other if k == [x for x in pj.KINDS if x != truth][0] else "absent"))
+                                                                     for k in pj.KINDS], "names": True, "second": second})
     # ---- sync_properties
     for fin in ("existing", "missing", "absent"):
         for fout in ("existing", "missing", "absent"):
@@ -44,6 +50,11 @@ def argv_cases():
             for mapping in ("valid", "absent", "bogus"):
                 for typ in ("class", "function", "argparse", "bogus", None):
                     cases.append({"cmd": "gen", "out": out, "tpl": tpl, "mapping": mapping, "type": typ})
+    # gen invocations that pass validation but cannot produce a module that parses: nothing may be left behind
+    for typ in ("class", "function", "argparse"):
+        for out in ("new", "existing"):
+            cases.append({"cmd": "gen", "out": out, "tpl": "not_an_identifier", "mapping": "valid", "type": typ})
+            cases.append({"cmd": "gen", "out": out, "tpl": True, "mapping": "valid", "type": typ, "prepend": "plain_text"})
     return [dict(c, part="argv") for c in cases]
 
 
@@ -168,7 +179,7 @@ class C20(core.Check):
                               **(core.exc_obs(exc) if exc is not None else {})))
         else:
             nonzero = isinstance(exc, SystemExit) and exc.code not in (0, None) or isinstance(exc, (IOError, OSError))
-            if why in ("mapping not importable", "unresolvable address"):
+            if why in ("mapping not importable", "unresolvable address", "generated text does not parse"):
                 # not a usage error of the command line: any reported error will do, as long as nothing is touched
                 nonzero = exc is not None
             sites.append(site(bool(nonzero), dict(facts, field="rejected_with_usage_error"), fail="not_a_usage_error",
@@ -191,7 +202,19 @@ class C20(core.Check):
                 if st == "existing":
                     with open(p, "w") as f:
                         f.write(pj.render(kind, "v1"))
-                argv += [FLAG[kind], p]
+                second = case.get("second") if kind == case["truth"] else None
+                if second:
+                    p2 = os.path.join(root, "second_" + pj.FILES[kind])
+                    if second in ("first_missing", "both_missing"):
+                        os.unlink(p)
+                        st = "missing"
+                    if second in ("first_missing", "both_existing"):
+                        with open(p2, "w") as f:
+                            f.write(pj.render(kind, "v2"))
+                    argv += [FLAG[kind], p, FLAG[kind], p2]
+                    given += 1
+                else:
+                    argv += [FLAG[kind], p]
                 if case["names"]:
                     argv += [FLAG[kind] + "-name", pj.DEF_NAMES[kind]]
                 given += 1
@@ -247,7 +270,11 @@ class C20(core.Check):
             argv += ["-o", out]
         else:
             ok, why = False, "no output"
-        if case["tpl"]:
+        if case["tpl"] == "not_an_identifier":
+            argv += ["--name-tpl", "{name}-config"]
+            if ok:
+                ok, why = False, "generated text does not parse"
+        elif case["tpl"]:
             argv += ["--name-tpl", "{name}Config"]
         else:
             ok, why = False, "no --name-tpl"
@@ -262,6 +289,10 @@ class C20(core.Check):
             argv += ["--type", case["type"]]
         if case["type"] in (None, "bogus"):
             ok, why = False, "bad --type"
+        if case.get("prepend") == "plain_text":
+            argv += ["--prepend", "Licensed under the terms of the licence\\n"]
+            if ok:
+                ok, why = False, "generated text does not parse"
         return argv, ok, why
 
     # ------------------------------------------------------------------ (b)
